@@ -1,0 +1,31 @@
+//go:build verif
+
+// Contracts for the deductive verifier in /verif (comment-only; compiled only with -tags verif).
+package vm
+
+// the account manager seen by the EVM (implemented by chain/account.Manager): assumed interface contracts
+//@ func (AccountManager).GetAccount   pure trusted
+//@   opt heap-independent
+//@   ensures result != nil
+//@ func (AccountManager).Snapshot   trusted
+//@   modifies nothing
+//@ func (AccountManager).RevertToSnapshot   trusted
+//@   modifies ghall("equity"), ghall("hasEquity"), ghall("supply"), ghall("balance")
+//@ func (AssetDb).GetAssetCode   trusted
+//@   modifies nothing
+//@ func (ContractRef).GetAddress   pure trusted
+//@   opt heap-independent
+
+// C12: what a transfer-asset transaction has done to the equities by the time contract code starts to run.
+//@ func (*EVM).TransferAssetTx
+//@   props C12
+//@   requires evm != nil && caller != nil
+//@   opt stop-at=run#0
+//@   let s = evm.am.GetAccount(caller.GetAddress()); r = evm.am.GetAccount(addr)
+//@   assert @call run#0: val(amount) >= 0
+//@   assert @call run#0: types.equityOf(s, assetId) >= 0
+//@   assert @call run#0: !destroyAsset && s != r ==> types.equityOf(s, assetId) == old(types.equityOf(s, assetId)) - val(amount)
+//@   assert @call run#0: !destroyAsset && s != r && old(types.hasEquity(r, assetId)) ==> types.equityOf(r, assetId) == old(types.equityOf(r, assetId)) + val(amount)
+//@   assert @call run#0: !destroyAsset && s != r && !old(types.hasEquity(r, assetId)) ==> types.equityOf(r, assetId) == val(amount)
+//@   assert @call run#0: !destroyAsset && s == r ==> types.equityOf(s, assetId) == old(types.equityOf(s, assetId))
+//@   assert @call run#0: destroyAsset && asset.IsDivisible ==> types.supplyOf(issuerAcc, senderEquity.AssetCode) == old(types.supplyOf(issuerAcc, senderEquity.AssetCode)) - val(amount) && types.equityOf(s, assetId) == old(types.equityOf(s, assetId)) - val(amount)
